@@ -345,4 +345,17 @@ func rulesC09(e *Engine, r *Report) {
 	}
 	// ---------------------------------------------------------------- R09.11
 	e.shareRule(r, "C01", "R01.7", "R09.11", "the record of ranges belongs to one version: an existing companion is continued only when its hash equals the hash announced with the part; otherwise a fresh record is started (ranges of another version's bytes must not count towards this version's completeness)")
+	// ---------------------------------------------------------------- R09.12
+	r.Rule("R09.12", "delivering a version does not erase the record of the next: the deliverer removes the companion only when there is none to read or the one on disk carries the hash of the file just delivered - while a parked version waits, a newer version's acknowledged ranges are recorded in that same companion file")
+	if fn := needFn(e, r, "R09.12", "stage.(*Stage).putFileAway"); fn != nil {
+		cmp := "call(stage.readLocalCompanion)(p1.path, §)#0"
+		cls := labeler(
+			C("("+cmp+" == nil)", "none"),
+			C("("+cmp+".Hash == p1.hash)", "sameVersion"),
+			C("(p1.hash == "+cmp+".Hash)", "sameVersion"),
+		)
+		n := e.Guarded(r, "R09.12", "stage.(*Stage).putFileAway: the companion removed is the delivered file's own", fn, e.instrMatch("call(os.Remove)((p1.path + \".cmp\"))"), cls,
+			func(l LabelSet) bool { return l.HasAny("none", "sameVersion") }, "no companion, or companion.Hash == file.hash")
+		r.Min("R09.12", "companion removals in the deliverer", n, 1)
+	}
 }
